@@ -21,16 +21,16 @@ CHECKS = {
    text='Seeded exploration of fault plans: a random subset of waveform memories is shrunk to the minimum capacity so that the overflow path (transitions discarded) actually runs, under option knobs, reuse batches and poisoned dead storage; every produced waveform (snapshot when its op finishes) and every captured value is compared with an independent gate-by-gate Boolean evaluator for initial value and final-value parity. The unfaulted clauses of the statement are pure functions and are only sampled as the separately counted fault-free tier.',
    ref='5.4', note='RefEval written from gate names; dyadic delays <= 64; pure-Python fallback; sampling within <=40 gates, <=4 lanes.'),
  'C06': dict(technique='deterministic simulation: configuration swarm over knobs, code paths, seeded GPU thread orders, lanes and storage reuse with poison faults',
-   text='Each seeded case runs as several configuration pairs that must agree bit-for-bit on port-level results: memory reuse (with dead storage poisoned at level boundaries and several batches on one object), fork stripping, CPU vs mock-GPU path under seeded thread orders and the repository launcher (assign/eval/capture/state-transfer kernels, abuf), lane count and lane position, propagation restricted to k lanes (with a lane-isolation monitor), delay-dataset selection modes (global, per simulation, random with per-simulation seeds that travel with the stimulus), a pickle round trip of the simulator object between batches, repeated propagation without re-assignment; LogicSim likewise (options, lane count and position up to 300 lanes, a lane simulated alone or with perturbed neighbours). One genuine defect (F4) is recorded as a known finding.',
+   text='Each seeded case runs as several configuration pairs that must agree bit-for-bit on port-level results: memory reuse (with dead storage poisoned at level boundaries and several batches on one object), fork stripping, CPU vs mock-GPU path under seeded thread orders and the repository launcher (assign/eval/capture/state-transfer kernels, abuf), lane count and lane position, propagation restricted to k lanes (with a lane-isolation monitor), delay-dataset selection modes (global, per simulation, random with per-simulation seeds that travel with the stimulus), a pickle round trip of the simulator object between batches, repeated propagation without re-assignment, capture times passed as float32 / float64 / Python numbers (also float64 values that round to a transition time); LogicSim likewise (options, lane count and position up to 300 lanes, a lane simulated alone or with perturbed neighbours). One genuine defect (F4) is recorded as a known finding.',
    ref='5.3', note='Exact 0/1 stimuli; sd=0; pure-Python fallback; the purely configurational pairs (dataset selection, lane position on LogicSim) contain no schedule or fault and are counted as fault-free differential.'),
  'C16': dict(technique='deterministic simulation: fault injection through the code\'s own inject_cb seam, event-history checks and refinement against a cut-circuit reference',
-   text='The harness callback is monitor and fault injector: seeded fault plans overwrite signals in chosen lanes and cycles (c_prop and cycle(k)); the recorded event history is checked for exactly-once, dependency order, identity and view semantics, and per cycle and lane group the results and every value any callback saw must equal the callback-free simulation of the cut circuit in which each injected line is a fresh primary input. Untouched callbacks must leave s[1] and c bit-identical in all three logics.',
+   text='The harness callback is monitor and fault injector: seeded fault plans overwrite signals in chosen lanes and cycles (c_prop and cycle(k)); the recorded event history is checked for exactly-once, dependency order, identity and view semantics, and per cycle and lane group the results and every value any callback saw must equal the callback-free simulation of the cut circuit in which each injected line is a fresh primary input. Untouched callbacks must leave s[1] and c bit-identical in all three logics, whatever the callable is (function, partial, method, falsy object) and whatever it returns; a callback-free propagation on the same object afterwards - with or without a new assignment - must give the fault-free results again.',
    ref='5.6', note='Oracle is the same simulator class without callback on a rebuilt cut circuit (no second multi-valued algebra); lanes are grouped by injection set; pure-Python fallback.'),
  'C09': dict(technique='deterministic simulation: stateful exploration of edit histories against a reference graph model, with restore (pickle/copy) faults in mid-history',
-   text='Seeded histories of 1-150 public edit operations (nodes, lines with implicit/explicit pins, removals, get_or_add_fork, port list edits, eliminate_1to1_forks, substitute with generated implementations, copy, pickle round trip after which the history continues on the restored object). Removals are repeated on stale handles, cells and forks may share a name, node kinds and names are exotic. After every step all clauses of the statement are evaluated on the real object (indices, name lookups, exact pin back-references by scanning all pin lists, gap-free fork outputs, statistics) and the graph must be isomorphic to the dict-based reference model.',
+   text='Seeded histories of 1-150 public edit operations (nodes, lines with implicit/explicit pins, removals, get_or_add_fork, port list edits, eliminate_1to1_forks, substitute with generated implementations, copy, pickle round trip after which the history continues on the restored object). Removals are repeated on stale handles, cells and forks may share a name, node kinds and names are exotic, a fork may have hundreds of branches. After every step all clauses of the statement are evaluated on the real object (indices, name lookups, exact pin back-references by scanning all pin lists, gap-free fork outputs, statistics) and the graph must be isomorphic to the dict-based reference model.',
    ref='5.7', note='Well-formed use only (acyclic, one driver per fork, explicit pins on free positions); substitute re-synchronises the model after the invariants passed; trailing None pin slots are not compared.'),
  'C10': dict(technique='deterministic simulation: seeded transformation histories with restore (pickle/copy) steps, checked after every step against a hierarchical reference evaluator',
-   text='No schedule exists here; what is explored is the history: a seeded netlist with instances of every cell of every built-in library (random pin subsets connected) goes through 1-8 transformation steps (copy, pickle round trip, eliminate_1to1_forks, substitute with generated and nested implementations, resolve_tlib_cells); after every step the list of ports/state elements and the exhaustive 2-valued table at their data pins (independent evaluator: hierarchical through implementation circuits before resolving, flat afterwards) must be unchanged; no library cell may remain after resolving, the libraries must still offer every cell name of the pinned tree, and the shared implementation circuits must stay unmodified. Two genuine defects (latch cells without latch in their name; state-element order after node removal) are recorded known findings.',
+   text='No schedule exists here; what is explored is the history: a seeded netlist with instances of every cell of every built-in library (random pin subsets connected) goes through 1-8 transformation steps (copy, pickle round trip, eliminate_1to1_forks, substitute with generated and nested implementations, resolve_tlib_cells); after every step the list of ports/state elements and the exhaustive 2-valued table at their data pins (independent evaluator: hierarchical through implementation circuits before resolving, flat afterwards) must be unchanged; no library cell may remain after resolving, the libraries must still offer every cell name of the pinned tree, and the shared implementation circuits must stay unmodified; after resolving and at the end of a history the same table is also taken through the library's own LogicSim on the transformed circuit (the function as a user observes it). Two genuine defects (latch cells without latch in their name; state-element order after node removal) are recorded known findings.',
    ref='5.8', note='Unconnected instance inputs only where the function is unambiguous; one library per case; RefEval written from gate names; exhaustive up to 10 variables, else 1024 fixed rows.'),
  'C13': dict(technique='deterministic simulation: capacity faults paired with unlimited runs, accumulation under seeded GPU thread orders and real-thread interleavings, capture read-out of recorded state',
    text='Overflow indicator: capacity-faulted run vs paired capacity-64 run, every output whose indicator is clear must carry exactly the unlimited waveform. Accumulation: abuf must equal the weighted rise/fall count of the waveform snapshots taken when each op finishes, cumulatively over reuse batches, on the CPU path, under seeded mock-GPU thread orders, under fine-grained interleaving (where a non-atomic update loses counts) and for the first k lanes. Capture summary: s[3..8], s[10] against what the stored output waveform encodes for capture times selected on/around actual transitions.',
@@ -39,7 +39,7 @@ CHECKS = {
    text='Seeded exploration of schedules: every generated circuit/option combination is executed under permuted intra-level op orders (CPU), seeded thread orders of the mock-GPU grid, the repository launcher and real-thread interleavings; a run-time race monitor (M1), shadow-ownership monitor (M2) and lane monitor (M3) judge every access, and signal memory and results must be bit-identical to the canonical order. Sampling, not proof: evidence within the stated bounds (<=40 gates normally, 50-80 in the rare deep / wide shapes, the shipped b01 netlist; <=6 lanes, 33 in the lane rows).',
    ref='5.1', note='Pure-Python fallback (MockNumba/MockCuda) is what executes; CUDA runtime replaced by SimCuda; a kernel launch is the only barrier.'),
  'C08': dict(technique='deterministic simulation: alloc/free history exploration against a reference heap + token/ownership execution of the real memory map with poison faults',
-   text='Allocator: seeded alloc/free histories checked after every step against an interval-set reference model. Map: the real SimOps schedule and map are executed with tokens (order-independent conflict analysis per level) and with real waveforms under shadow ownership, with dead storage poisoned at every level boundary and several reuse batches; port results must be unaffected.',
+   text='Allocator: seeded alloc/free histories checked after every step against an interval-set reference model. Map: the real SimOps schedule and map are executed with tokens (order-independent conflict analysis per level) and with real waveforms under shadow ownership, with dead storage poisoned at every level boundary and several reuse batches; port results must be unaffected. One shipped netlist (b15, ~20 000 ops) runs through the token executor in the quick tier, more in the thorough tier.',
    ref='5.2', note='No allocation policy assumed; liveness model for poisoning is the weakest possible; pure-Python fallback.'),
 }
 def main():
